@@ -70,6 +70,11 @@ pub struct Pool {
 }
 
 impl Pool {
+    /// the largest length for which the pool has an ordinary packet frame
+    pub fn max_len(&self) -> usize {
+        self.by_len.keys().copied().max().unwrap_or(8)
+    }
+
     pub fn new(mode: &str) -> Self {
         let mut by_len: BTreeMap<usize, Vec<Vec<u8>>> = BTreeMap::new();
         for p in crate::abs::default_packets() {
